@@ -360,6 +360,15 @@ func PersistReload(cfg fw.Config, rec *fw.Rec, idx int, prefix string) {
 	gspec := fmt.Sprintf("guarded-%d-0", idx)
 	h = append([]op{{Kind: "create", Via: "captain", Mid: "gm", Spec: gspec}, {Kind: "msg", Via: "captain", Mid: "gm", Uid: "g1"}, {Kind: "msg", Via: "captain", Mid: "gm", Uid: "g2"}}, h...)
 	h = append(h, op{Kind: "msg", Via: "captain", Mid: "gm", Uid: "g3"}, op{Kind: "msg", Via: "captain", Mid: "gm", Uid: "g4"}, op{Kind: "msg", Via: "captain", Mid: "gm", Uid: "g5"})
+	// ... and a machine that is created, deleted and created again in just the same way
+	// (three messages) before the restarts, in every second history without having moved in
+	// between; it is used after them
+	again := []op{{Kind: "create", Via: "captain", Mid: "again", Spec: gspec}, {Kind: "delete", Via: "captain", Mid: "again"}, {Kind: "create", Via: "captain", Mid: "again", Spec: gspec}}
+	if idx%2 == 1 {
+		again = append([]op{again[0], {Kind: "msg", Via: "captain", Mid: "again", Uid: "a0"}}, again[1:]...)
+	}
+	h = append(again, h...)
+	h = append(h, op{Kind: "msg", Via: "captain", Mid: "again", Uid: "a1"}, op{Kind: "msg", Via: "captain", Mid: "again", Uid: "a2"})
 	var lines []string
 	for _, o := range h {
 		lines = append(lines, mustJSON(o.message()))
@@ -372,7 +381,7 @@ func PersistReload(cfg fw.Config, rec *fw.Rec, idx int, prefix string) {
 	if !ok {
 		return
 	}
-	k := 3 + r.Intn(len(lines)-6)
+	k := 5 + r.Intn(len(lines)-10)
 	_, _, file1, ok := runStdio(rec, replay, dir, "P1", "", lines[:k])
 	if !ok {
 		return
